@@ -83,6 +83,7 @@ struct Sched {
     // follow a list of thread ids as far as possible (skipping non-runnable), then round robin
     int  run_schedule(const std::vector<int>& sched, long maxsteps);
     int  finish(long maxsteps = 5000000);   // round robin to completion
+    bool settle_exits();              // before declaring a deadlock: wait for the real exit paths of finished threads
     void settle_daemons(long maxsteps); // run library-created threads until they sleep (called by join_all)
     void join_all();                  // joins finished threads, detaches the rest (stuck runs)
 };
